@@ -3,7 +3,8 @@
    (fallback to the payload order, the key is the named vector of the named measure). *)
 From Coq Require Import List Sorting Permutation ZArith String Bool Lia Arith QArith Lqa.
 From CC Require Import Base.XQ Base.SortX Spec.OrderSpec Model.Collator Model.SortKeys
-  Proofs.OrderCollate Proofs.OrderExplicit Proofs.OrderIds Proofs.OrderVisible Proofs.OrderSbv.
+  Proofs.OrderCollate Proofs.OrderExplicit Proofs.OrderIds Proofs.OrderVisible Proofs.SbvDedup
+  Proofs.OrderSbv.
 Import ListNotations.
 Local Close Scope Q_scope.
 Local Open Scope nat_scope.
@@ -180,12 +181,13 @@ Proof.
   simpl. rewrite andb_true_r. apply Z.leb_le. lia.
 Qed.
 
-(* the free base elements of the display order are exactly the visible part of body ++ NaN bucket *)
-Theorem display_free_base d s vals svals empties :
-  filter (free_base (all_fixed d s)) (sbv_display d s vals svals empties)
+(* the free base elements of the plain concatenation are exactly the visible part of body ++ NaN
+   bucket *)
+Lemma plain_free_base d s vals svals empties :
+  filter (free_base (all_fixed d s)) (sbv_plain d s vals svals empties)
   = displayed (collator_hidden d empties) (body_idxs (s_desc s) vals (all_fixed d s)).
 Proof.
-  unfold sbv_display, displayed. rewrite filter_comm. f_equal.
+  unfold sbv_plain, displayed. rewrite filter_comm. f_equal.
   unfold sbv_segments, all_fixed. cbv zeta. simpl. rewrite app_nil_r.
   set (top := fixed_idxs (d_ids d) (s_top s)). set (bottom := fixed_idxs (d_ids d) (s_bottom s)).
   assert (Neg : forall z, In z (subtotal_idxs (s_desc s) svals) -> free_base (top ++ bottom) z = false).
@@ -207,6 +209,16 @@ Proof.
   apply app_nil_r.
 Qed.
 
+(* ... and so are those of the display order: the de-duplication only ever drops later mentions of
+   FIXED elements *)
+Theorem display_free_base d s vals svals empties :
+  filter (free_base (all_fixed d s)) (sbv_display d s vals svals empties)
+  = displayed (collator_hidden d empties) (body_idxs (s_desc s) vals (all_fixed d s)).
+Proof.
+  rewrite sbv_display_first_mentions, <- first_mentions_filter, plain_free_base.
+  apply first_mentions_id. unfold displayed. apply NoDup_filter_any. apply body_idxs_nodup.
+Qed.
+
 (* THE PROPERTY for the base elements: among the elements that are displayed and not in a fixed
    list, an earlier one may precede a later one *)
 Theorem display_body_monotone d s vals svals empties :
@@ -217,11 +229,11 @@ Proof.
 Qed.
 
 (* the subtotals of the display order: all of them, value-sorted *)
-Theorem display_subtotals d s vals svals empties :
-  filter (fun z => (z <? 0)%Z) (sbv_display d s vals svals empties)
+Lemma plain_subtotals d s vals svals empties :
+  filter (fun z => (z <? 0)%Z) (sbv_plain d s vals svals empties)
   = subtotal_idxs (s_desc s) svals.
 Proof.
-  unfold sbv_display, displayed. rewrite filter_filter.
+  unfold sbv_plain, displayed. rewrite filter_filter.
   unfold sbv_segments. cbv zeta. simpl. rewrite app_nil_r.
   set (p := fun x : Z => visible (collator_hidden d empties) x && (x <? 0)%Z).
   assert (Sub : filter p (subtotal_idxs (s_desc s) svals) = subtotal_idxs (s_desc s) svals).
@@ -238,14 +250,22 @@ Proof.
   destruct (s_desc s); simpl; rewrite ?app_nil_r; auto.
 Qed.
 
+Theorem display_subtotals d s vals svals empties :
+  filter (fun z => (z <? 0)%Z) (sbv_display d s vals svals empties)
+  = subtotal_idxs (s_desc s) svals.
+Proof.
+  rewrite sbv_display_first_mentions, <- first_mentions_filter, plain_subtotals.
+  apply first_mentions_id. apply subtotal_idxs_nodup.
+Qed.
+
 Theorem display_subtotals_monotone d s vals svals empties :
   StronglySorted (may_precede (s_desc s) (sub_val svals))
     (filter (fun z => (z <? 0)%Z) (sbv_display d s vals svals empties)).
 Proof. rewrite display_subtotals. apply subtotal_idxs_monotone. Qed.
 
 (* brackets: what stands before the first / after the last free base element *)
-Theorem display_brackets d s vals svals empties :
-  sbv_display d s vals svals empties =
+Lemma plain_brackets d s vals svals empties :
+  sbv_plain d s vals svals empties =
   displayed (collator_hidden d empties)
     ((if s_desc s then subtotal_idxs (s_desc s) svals else [])
      ++ map Z.of_nat (fixed_idxs (d_ids d) (s_top s)))
@@ -254,8 +274,39 @@ Theorem display_brackets d s vals svals empties :
        (map Z.of_nat (fixed_idxs (d_ids d) (s_bottom s))
         ++ (if s_desc s then [] else subtotal_idxs (s_desc s) svals)).
 Proof.
-  unfold sbv_display, displayed, sbv_segments, all_fixed. cbv zeta. simpl.
+  unfold sbv_plain, displayed, sbv_segments, all_fixed. cbv zeta. simpl.
   rewrite app_nil_r, !filter_app, <- !app_assoc. reflexivity.
+Qed.
+
+(* no element named twice in the fixed lists: the two lists as they stand *)
+Theorem display_brackets_fixed_once d s vals svals empties :
+  fixed_once (d_ids d) s ->
+  sbv_display d s vals svals empties =
+  displayed (collator_hidden d empties)
+    ((if s_desc s then subtotal_idxs (s_desc s) svals else [])
+     ++ map Z.of_nat (fixed_idxs (d_ids d) (s_top s)))
+  ++ displayed (collator_hidden d empties) (body_idxs (s_desc s) vals (all_fixed d s))
+  ++ displayed (collator_hidden d empties)
+       (map Z.of_nat (fixed_idxs (d_ids d) (s_bottom s))
+        ++ (if s_desc s then [] else subtotal_idxs (s_desc s) svals)).
+Proof. intros F. rewrite (sbv_display_fixed_once _ _ _ _ _ F). apply plain_brackets. Qed.
+
+(* any fixed lists: the brackets are the fixed lists with every id where it is first mentioned
+   ([fixed_normal]); the free body leaves out every element named in either list *)
+Theorem display_brackets d s vals svals empties :
+  sbv_display d s vals svals empties =
+  displayed (collator_hidden d empties)
+    ((if s_desc s then subtotal_idxs (s_desc s) svals else [])
+     ++ map Z.of_nat (fixed_idxs (d_ids d) (s_top (fixed_normal s))))
+  ++ displayed (collator_hidden d empties) (body_idxs (s_desc s) vals (all_fixed d s))
+  ++ displayed (collator_hidden d empties)
+       (map Z.of_nat (fixed_idxs (d_ids d) (s_bottom (fixed_normal s)))
+        ++ (if s_desc s then [] else subtotal_idxs (s_desc s) svals)).
+Proof.
+  rewrite sbv_display_normal, plain_brackets.
+  assert (D : s_desc (fixed_normal s) = s_desc s) by reflexivity. rewrite D.
+  unfold all_fixed.
+  rewrite (body_idxs_ext (s_desc s) vals _ _ (fixed_normal_members (d_ids d) s)). reflexivity.
 Qed.
 
 (* --- sorting on a surrogate ------------------------------------------------------------------------- *)
